@@ -32,6 +32,8 @@ type Endpoint struct {
 }
 
 type Case struct {
+	// Ctx: "" (live) | cancelled | expired  - the caller's context when Sign is entered
+	Ctx string
 	// Rounds is the number of Sign calls made on the one Signer (behaviours may change after the first).
 	Rounds     int
 	Endpoints  []Endpoint
@@ -96,6 +98,9 @@ func gen(t *rapid.T) Case {
 	for i := 0; i < n; i++ {
 		c.Endpoints = append(c.Endpoints, genEndpoint(t, fmt.Sprintf("e%d", i)))
 	}
+	if rapid.IntRange(0, 9).Draw(t, "doneCtx") == 0 {
+		c.Ctx = rapid.SampledFrom([]string{"cancelled", "expired"}).Draw(t, "ctx")
+	}
 	c.Rounds = rapid.SampledFrom([]int{1, 2, 2, 3}).Draw(t, "rounds")
 	if c.Rounds > 1 {
 		for i := range c.Endpoints {
@@ -132,7 +137,7 @@ func exec(c Case) (vh.Outcome, error) {
 	for i, e := range c.Endpoints {
 		ip := fmt.Sprintf("127.0.0.%d", i+2)
 		ips = append(ips, ip)
-		specs = append(specs, vh.CAServerSpec{IP: ip, Behaviour: e.Behaviour, Code: e.Code, Later: e.Later, LaterCode: e.LaterCode, KeyText: keyText(e), ClientAuth: "request", HangFor: 2 * time.Second})
+		specs = append(specs, vh.CAServerSpec{IP: ip, Behaviour: e.Behaviour, Code: e.Code, Later: e.Later, LaterCode: e.LaterCode, KeyText: keyText(e), ClientAuth: "request", HangFor: 4 * time.Second})
 	}
 	g, err := vh.StartCAGroup(specs)
 	if err != nil {
@@ -140,12 +145,20 @@ func exec(c Case) (vh.Outcome, error) {
 	}
 	defer g.Stop()
 	f := vh.Farm()
+	// generous per-try deadline so that a loaded machine never turns a healthy endpoint into a failed
+	// one; only cases with a hanging endpoint use a short one
+	perTry := 10 * time.Second
+	for _, e := range c.Endpoints {
+		if e.Behaviour == "hang" {
+			perTry = 1500 * time.Millisecond
+		}
+	}
 	if ips == nil {
 		ips = []string{}
 	}
 	signer, err := crypki.NewSigner(crypki.SignerConfig{
 		TLSClientKeyFile: f.ClientKeyFile(), TLSClientCertFile: f.ClientCertFile(), TLSCACertFiles: []string{f.CAFile("caA")},
-		CrypkiEndpoints: ips, CrypkiPort: uint(g.Port), Retries: 1, PerTryTimeout: 400 * time.Millisecond,
+		CrypkiEndpoints: ips, CrypkiPort: uint(g.Port), Retries: 1, PerTryTimeout: perTry,
 	})
 	if err != nil {
 		return out, vh.Errf("NewSigner failed for %d endpoints: %v", len(ips), err)
@@ -200,8 +213,27 @@ func oneRound(c Case, cur []Endpoint, round int, g *vh.CAGroup, signer *crypki.S
 	var serr error
 	ctx, cancel := context.WithTimeout(context.Background(), 30*time.Second)
 	defer cancel()
+	switch c.Ctx {
+	case "cancelled":
+		cancel()
+	case "expired":
+		var c2 context.CancelFunc
+		ctx, c2 = context.WithDeadline(context.Background(), time.Now().Add(-time.Second))
+		defer c2()
+	}
 	if perr := vh.Catch(func() { certs, comments, serr = signer.Sign(ctx, req) }); perr != nil {
 		return vh.Errf("Sign crashed: %v", perr)
+	}
+	if c.Ctx != "" {
+		// the deadline failure kind: every endpoint fails, so the call must report an error
+		for i, s := range g.Servers {
+			seenBefore[i] = len(s.Calls())
+		}
+		if serr == nil {
+			return vh.Errf("Sign with a %s context returned no error (%d certificates, %d comments): an empty success", c.Ctx, len(certs), len(comments))
+		}
+		outp.NonTrivial = true
+		return nil
 	}
 	if !proto.Equal(req, sent) {
 		return vh.Errf("Sign modified the caller's request")
@@ -280,7 +312,7 @@ func behaviours(c Case) []string {
 	return b
 }
 
-const rule = "endpoint lists of length 0..4 over 127.0.0.2..5 sharing one port, served by real gRPC-over-TLS Signing servers; per endpoint: signs 1..3 certificates with comment shapes (none, one word, several words, non-ASCII, a key-type look-alike), RPC error with any status code 1..16, empty key text, unparsable key text, no listener, hangs past the per-try deadline (rare); real crypki.NewSigner with real TLS material, retries = 1; 1..3 Sign calls on the same Signer, with endpoints recovering or starting to fail after the first call; request fields generated (principals, KeyID, validity, identifier, extensions, critical options). Oracle: contacted = the prefix up to and including the first signing endpoint, in order, each once, each receiving a request proto.Equal to the input; result = that endpoint's certificates and comments, same length, CA order; no signing endpoint or an empty list => non-nil error, never (nil, nil, nil). Non-trivial: a failing endpoint before a signing one, or all failing."
+const rule = "endpoint lists of length 0..4 over 127.0.0.2..5 sharing one port, served by real gRPC-over-TLS Signing servers; per endpoint: signs 1..3 certificates with comment shapes (none, one word, several words, non-ASCII, a key-type look-alike), RPC error with any status code 1..16, empty key text, unparsable key text, no listener, hangs past the per-try deadline (rare); real crypki.NewSigner with real TLS material, retries = 1; 1..3 Sign calls on the same Signer, with endpoints recovering or starting to fail after the first call; a tenth of the cases enter Sign with a cancelled or expired context (deadline failure of every endpoint); request fields generated (principals, KeyID, validity, identifier, extensions, critical options). Oracle: contacted = the prefix up to and including the first signing endpoint, in order, each once, each receiving a request proto.Equal to the input; result = that endpoint's certificates and comments, same length, CA order; no signing endpoint or an empty list => non-nil error, never (nil, nil, nil). Non-trivial: a failing endpoint before a signing one, or all failing."
 
 func TestC17Failover(t *testing.T) {
 	vh.Run(t, vh.Spec[Case]{Property: "C17", Name: "TestC17Failover", Rule: rule, Gen: gen, Exec: exec})
